@@ -179,10 +179,12 @@ impl<Wr: Write> Serializer for XmlSerializer<Wr> {
 
     /// Serializes given end element into text.
     fn end_elem(&mut self, name: QualName) -> io::Result<()> {
-        self.namespace_stack.pop();
         self.writer.write_all(b"</")?;
         self.qual_name(&name)?;
-        self.writer.write_all(b">")
+        self.writer.write_all(b">")?;
+        // Leave the element's scope only after its name has been looked up in it.
+        self.namespace_stack.pop();
+        Ok(())
     }
 
     /// Serializes comment into text.
